@@ -575,6 +575,8 @@ def cmd_check(args):
         n_checks = 0
         solver_time = 0.0
         nontrivial = set()
+        # failing harnesses are replayed cheapest first (the playback generator re-runs CBMC)
+        results.sort(key=lambda t: (0 if classify(t[2])[0] != "fail" else 1, t[2].time))
         for cfg, h, r in results:
             verdict, why, genuine = classify(r)
             n_checks += r.checks
